@@ -6,5 +6,5 @@ set -e
 cd "$(dirname "$0")"
 export CARGO_NET_OFFLINE=true
 python3 tools/extract.py >/dev/null
-(cd lean && lake build askar_model_store askar_model_c04s askar_model_c02 askar_model_c03 askar_model_c06 askar_model_c08 askar_model_c09 askar_model_c10 askar_model_c11 askar_model_c12 askar_model_c13 askar_model_c14 askar_model_c15 askar_model_c18 askar_model_c19 askar_model_c20 AskarModel.Props.C01 AskarModel.Props.C02 AskarModel.Props.C03 AskarModel.Props.C04 AskarModel.Props.C05 AskarModel.Props.C06 AskarModel.Props.C07 AskarModel.Props.C08 AskarModel.Props.C09 AskarModel.Props.C10 AskarModel.Props.C11 AskarModel.Props.C12 AskarModel.Props.C13 AskarModel.Props.C14 AskarModel.Props.C15 AskarModel.Props.C16 AskarModel.Props.C17 AskarModel.Props.C18 AskarModel.Props.C19 AskarModel.Props.C20 AskarModel.Props.C04S AskarModel.Props.SqlSem AskarModel.Props.Ties)
+(cd lean && lake build askar_model_store askar_model_c04s askar_model_c02 askar_model_c03 askar_model_c06 askar_model_c08 askar_model_c09 askar_model_c10 askar_model_c11 askar_model_c12 askar_model_c13 askar_model_c14 askar_model_c15 askar_model_c18 askar_model_c19 askar_model_c20 AskarModel.Props.C01 AskarModel.Props.C02 AskarModel.Props.C03 AskarModel.Props.C04 AskarModel.Props.C05 AskarModel.Props.C06 AskarModel.Props.C07 AskarModel.Props.C08 AskarModel.Props.C09 AskarModel.Props.C10 AskarModel.Props.C11 AskarModel.Props.C12 AskarModel.Props.C13 AskarModel.Props.C14 AskarModel.Props.C15 AskarModel.Props.C16 AskarModel.Props.C17 AskarModel.Props.C18 AskarModel.Props.C19 AskarModel.Props.C20 AskarModel.Props.C04S AskarModel.Props.SqlSem AskarModel.Props.Ties AskarModel.Props.C08Pg AskarModel.Props.C04SPg AskarModel.Props.C07H AskarModel.Props.C06S askar_model_c07h)
 (cd harness && cargo build --offline)
